@@ -31,7 +31,7 @@ Proof.
 Qed.
 End SaveGood.
 
-(* the proved part of "replace = false leaves the source intact": destination different from the source *)
+(* "replace = false leaves the source intact": destination different from the source *)
 Lemma rechunker_source_intact {bytes : Type} (enc : Z -> list row -> bytes) (dec : Z -> bytes -> option (list row)) :
   (forall k rs, dec k (enc k rs) = Some rs) ->
   forall (fs : fsys bytes) src dst tmp comp tgt rechunk s cs,
@@ -43,6 +43,20 @@ Proof.
   destruct (rechunker_preserves enc dec codec fs src dst tmp false comp tgt rechunk s cs H1 H2 H3 Hl G Ht)
     as (tr & s' & cs' & E & _ & _ & _ & Hf & _).
   rewrite E. cbn [fst]. apply Hf. reflexivity.
+Qed.
+
+(* ... and for every destination, now that rechunker() refuses a destination that is the source itself *)
+Lemma rechunker_source_intact_full {bytes : Type} (enc : Z -> list row -> bytes) (dec : Z -> bytes -> option (list row)) :
+  (forall k rs, dec k (enc k rs) = Some rs) ->
+  forall (fs : fsys bytes) src dst tmp comp tgt rechunk s cs,
+  src <> tmp -> dst <> tmp -> lookup src fs = Some s -> good dec s cs ->
+  (forall t, tgt = Some t -> 0 < t) ->
+  Forall (fun fs' => lookup src fs' = Some s) (fst (rechunker_run enc dec fs src dst tmp false comp tgt rechunk)).
+Proof.
+  intros codec fs src dst tmp comp tgt rechunk s cs H2 H3 Hl G Ht.
+  destruct (Z.eq_dec src dst) as [->|Hne].
+  - unfold rechunker_run. rewrite Hl, Z.eqb_refl. constructor.
+  - eapply rechunker_source_intact; eauto.
 Qed.
 
 (* the proved part of "ordinary key only if all chunks took part": groupings into consecutive jobs *)
@@ -128,14 +142,15 @@ Example ex_perchunk :
 Proof. vm_compute. repeat split; reflexivity. Qed.
 
 (* ------------------------------------------------------------------ what the faithful model refutes *)
-(* (1) strax.rechunker with a dest_directory that resolves to the source directory itself (its parent or
-   the directory), replace = false: FileSaver.__init__ removes the "destination" before the lazy loader
-   has read anything; the call fails ("has no chunks", read from the fresh temp directory's metadata) and
-   the source path is left holding a directory marked with the exception. *)
+(* (1) pinned: rechunker() before the repair (= rechunker_unguarded) with a dest_directory that resolves to
+   the source directory itself (its parent or the directory), replace = false: FileSaver.__init__ removes
+   the "destination" before the lazy loader has read anything; the call fails ("has no chunks", read from
+   the fresh temp directory's metadata) and the source path is left holding a directory marked with the
+   exception.  The repaired rechunker_run refuses with E_SAME_DIR before anything is removed. *)
 Lemma rechunker_same_dir_witness :
   exists (fs : fsys tbytes) src tmp s cs,
     src <> tmp /\ lookup src fs = Some s /\ good tdec s cs /\
-    let '(tr, r) := rechunker_run tenc tdec fs src src tmp false None None true in
+    let '(tr, r) := rechunker_unguarded tenc tdec fs src src tmp false None None true in
     r = Err E_NO_CHUNKS /\ visible (last tr fs) src = false /\
     ~ Forall (fun fs' => lookup src fs' = Some s) tr.
 Proof.
@@ -143,6 +158,10 @@ Proof.
   split; [discriminate|]. split; [reflexivity|]. split; [exact ex_store_good|].
   vm_compute. split; [reflexivity|]. split; [reflexivity|]. intros H. inversion H as [|? ? H1 _]. discriminate.
 Qed.
+
+Example ex_same_dir_refused :
+  rechunker_run tenc tdec [(P_SRC, ex_store)] P_SRC P_SRC P_TMP false None None true = ([], Err E_SAME_DIR).
+Proof. reflexivity. Qed.
 
 (* (2) merge_per_chunk_storage decides "these are all the chunks" by min = 0 and max = last: groups with a
    hole pass, the merged data goes under the ordinary key and lacks the rows of the missing chunk *)
